@@ -19,268 +19,10 @@ verus! {
 
 global size_of usize == 8;
 
-//@INCLUDE {{LZINC}}
-
-/// bit `i` of `v`
-pub open spec fn wbit(v: nat, i: nat) -> bool {
-    (v / pow2(i)) % 2 == 1
-}
-
 pub struct BE;
 pub struct LE;
 
-// the value of a word obtained from the backend: `w.to_be()` (BE readers) /
-// `w.to_le()` (LE readers); the link to the canonical byte image is discharged
-// by the Kani obligations std_spec.byte_order.*
-pub uninterp spec fn spec_to_be(x: {{W}}) -> {{W}};
-pub uninterp spec fn spec_to_le(x: {{W}}) -> {{W}};
-pub assume_specification[ {{W}}::to_be ](x: {{W}}) -> (r: {{W}}) ensures r == spec_to_be(x);
-pub assume_specification[ {{W}}::to_le ](x: {{W}}) -> (r: {{W}}) ensures r == spec_to_le(x);
-
-pub trait WordRead {
-    type Error;
-    /// the (conceptually unbounded) sequence of words of the backend
-    spec fn word_at(&self, i: nat) -> {{W}};
-    spec fn cursor(&self) -> nat;
-    /// no backend delivers more than `limit` words (streams are shorter than 2^64 bits)
-    spec fn limit(&self) -> nat;
-    /// number of words of actual data: a strict backend fails only at or beyond it, a
-    /// zero-extended one never fails
-    spec fn len(&self) -> nat;
-    fn read_word(&mut self) -> (r: Result<{{W}}, Self::Error>)
-        ensures
-            forall|i: nat| final(self).word_at(i) == old(self).word_at(i),
-            final(self).limit() == old(self).limit(),
-            final(self).len() == old(self).len(),
-            r is Ok ==> old(self).cursor() < old(self).limit() && r->Ok_0 == old(self).word_at(old(self).cursor()) && final(self).cursor() == old(self).cursor() + 1,
-            r is Err ==> final(self).cursor() == old(self).cursor() && old(self).cursor() >= old(self).len(),
-    ;
-}
-
-//@FIELDS file=src/impls/buf_bit_reader.rs item=/pub struct BufBitReader</ [[backend: WR]] [[buffer: BB<WR>]] [[bits_in_buffer: usize]]
-pub struct BufBitReader<E, WR: WordRead> {
-    backend: WR,
-    buffer: {{BB}},
-    bits_in_buffer: usize,
-    _marker: core::marker::PhantomData<E>,
-}
-
-/// stream bit i of a backend: BE = bit N-1 - i%N of to_be(word i/N); LE = bit i%N of to_le(word i/N)
-pub open spec fn sbit<WR: WordRead>(le: bool, b: &WR, i: int) -> bool {
-    if le { wbit(spec_to_le(b.word_at((i / {{N}}) as nat)) as nat, (i % {{N}}) as nat) }
-    else { wbit(spec_to_be(b.word_at((i / {{N}}) as nat)) as nat, ({{N}} - 1 - i % {{N}}) as nat) }
-}
-
-/// stream bit at offset t from position p
-pub open spec fn rbit<WR: WordRead>(le: bool, b: &WR, p: int, t: int) -> bool {
-    sbit(le, b, p + t)
-}
-
-pub proof fn lemma_wbit_bb(v: {{BB}}, i: nat)
-    requires i < {{M}},
-    ensures wbit(v as nat, i) == ((v >> (i as {{BB}})) & 1 == 1),
-{
-    lemma_{{BB}}_shr_is_div(v, i as {{BB}});
-    let s = v >> (i as {{BB}});
-    assert(s & 1 == s % 2) by (bit_vector);
-}
-
-pub proof fn lemma_wbit_w(v: {{W}}, i: nat)
-    requires i < {{N}},
-    ensures wbit(v as nat, i) == ((v >> (i as {{W}})) & 1 == 1),
-{
-    lemma_{{W}}_shr_is_div(v, i as {{W}});
-    let s = v >> (i as {{W}});
-    assert(s & 1 == s % 2) by (bit_vector);
-}
-
-/// facts about leading_zeros / trailing_zeros in wbit form
-pub proof fn lemma_lz_bb(x: {{BB}})
-    ensures
-        0 <= {{BB}}_leading_zeros(x) <= {{M}},
-        x == 0 <==> {{BB}}_leading_zeros(x) == {{M}},
-        x != 0 ==> wbit(x as nat, ({{M}} - 1 - {{BB}}_leading_zeros(x)) as nat),
-        forall|j: nat| {{M}} - {{BB}}_leading_zeros(x) <= j < {{M}} ==> !#[trigger] wbit(x as nat, j),
-{
-    axiom_{{BB}}_leading_zeros(x);
-    let lz = {{BB}}_leading_zeros(x);
-    if x != 0 {
-        lemma_wbit_bb(x, ({{M}} - 1 - lz) as nat);
-        let s = x >> (({{M}} - 1 - lz) as {{BB}});
-        assert(s & 1 != 0 ==> s & 1 == 1) by (bit_vector);
-    }
-    assert forall|j: nat| {{M}} - lz <= j < {{M}} implies !#[trigger] wbit(x as nat, j) by {
-        lemma_wbit_bb(x, j);
-        assert((x >> (j as {{BB}})) & 1 == 0);
-    }
-}
-
-pub proof fn lemma_lz_w(x: {{W}})
-    ensures
-        0 <= {{W}}_leading_zeros(x) <= {{N}},
-        x == 0 <==> {{W}}_leading_zeros(x) == {{N}},
-        x != 0 ==> wbit(x as nat, ({{N}} - 1 - {{W}}_leading_zeros(x)) as nat),
-        forall|j: nat| {{N}} - {{W}}_leading_zeros(x) <= j < {{N}} ==> !#[trigger] wbit(x as nat, j),
-{
-    axiom_{{W}}_leading_zeros(x);
-    let lz = {{W}}_leading_zeros(x);
-    if x != 0 {
-        lemma_wbit_w(x, ({{N}} - 1 - lz) as nat);
-        let s = x >> (({{N}} - 1 - lz) as {{W}});
-        assert(s & 1 != 0 ==> s & 1 == 1) by (bit_vector);
-    }
-    assert forall|j: nat| {{N}} - lz <= j < {{N}} implies !#[trigger] wbit(x as nat, j) by {
-        lemma_wbit_w(x, j);
-        assert((x >> (j as {{W}})) & 1 == 0);
-    }
-}
-
-pub proof fn lemma_tz_bb(x: {{BB}})
-    ensures
-        0 <= {{BB}}_trailing_zeros(x) <= {{M}},
-        x == 0 <==> {{BB}}_trailing_zeros(x) == {{M}},
-        x != 0 ==> wbit(x as nat, {{BB}}_trailing_zeros(x) as nat),
-        forall|j: nat| j < {{BB}}_trailing_zeros(x) ==> !#[trigger] wbit(x as nat, j),
-{
-    axiom_{{BB}}_trailing_zeros(x);
-    let tz = {{BB}}_trailing_zeros(x);
-    if x != 0 {
-        lemma_wbit_bb(x, tz as nat);
-        let s = x >> (tz as {{BB}});
-        assert(s & 1 != 0 ==> s & 1 == 1) by (bit_vector);
-    }
-    assert forall|j: nat| j < tz implies !#[trigger] wbit(x as nat, j) by {
-        lemma_wbit_bb(x, j);
-        assert((x >> (j as {{BB}})) & 1 == 0);
-    }
-}
-
-pub proof fn lemma_tz_w(x: {{W}})
-    ensures
-        0 <= {{W}}_trailing_zeros(x) <= {{N}},
-        x == 0 <==> {{W}}_trailing_zeros(x) == {{N}},
-        x != 0 ==> wbit(x as nat, {{W}}_trailing_zeros(x) as nat),
-        forall|j: nat| j < {{W}}_trailing_zeros(x) ==> !#[trigger] wbit(x as nat, j),
-{
-    axiom_{{W}}_trailing_zeros(x);
-    let tz = {{W}}_trailing_zeros(x);
-    if x != 0 {
-        lemma_wbit_w(x, tz as nat);
-        let s = x >> (tz as {{W}});
-        assert(s & 1 != 0 ==> s & 1 == 1) by (bit_vector);
-    }
-    assert forall|j: nat| j < tz implies !#[trigger] wbit(x as nat, j) by {
-        lemma_wbit_w(x, j);
-        assert((x >> (j as {{W}})) & 1 == 0);
-    }
-}
-
-/// bits of (b << z) << 1
-pub proof fn lemma_shl1_bits(b: {{BB}}, z: nat, j: nat)
-    requires z < {{M}}, j < {{M}},
-    ensures wbit((((b << (z as {{BB}})) << 1) as {{BB}}) as nat, j) == (j >= z + 1 && wbit(b as nat, (j - z - 1) as nat)),
-{
-    let b2: {{BB}} = (b << (z as {{BB}})) << 1;
-    lemma_wbit_bb(b2, j);
-    let zz = z as {{BB}};
-    let jj = j as {{BB}};
-    if j >= z + 1 {
-        let k = (j - z - 1) as nat;
-        lemma_wbit_bb(b, k);
-        let kk = k as {{BB}};
-        assert((((b << zz) << 1) >> jj) & 1 == (b >> kk) & 1) by (bit_vector) requires jj == kk + zz + 1, jj < {{M}};
-    } else {
-        assert((((b << zz) << 1) >> jj) & 1 == 0) by (bit_vector) requires jj <= zz, zz < {{M}};
-    }
-}
-
-/// bits of b << z
-pub proof fn lemma_shl_bits(b: {{BB}}, z: nat, j: nat)
-    requires z < {{M}}, j < {{M}},
-    ensures wbit(((b << (z as {{BB}})) as {{BB}}) as nat, j) == (j >= z && wbit(b as nat, (j - z) as nat)),
-{
-    let b2: {{BB}} = b << (z as {{BB}});
-    lemma_wbit_bb(b2, j);
-    let zz = z as {{BB}};
-    let jj = j as {{BB}};
-    if j >= z {
-        let k = (j - z) as nat;
-        lemma_wbit_bb(b, k);
-        let kk = k as {{BB}};
-        assert(((b << zz) >> jj) & 1 == (b >> kk) & 1) by (bit_vector) requires jj == kk + zz, jj < {{M}};
-    } else {
-        assert(((b << zz) >> jj) & 1 == 0) by (bit_vector) requires jj < zz, zz < {{M}};
-    }
-}
-
-/// bits of (b >> z) >> 1
-pub proof fn lemma_shr1_bits(b: {{BB}}, z: nat, j: nat)
-    requires z < {{M}}, j < {{M}},
-    ensures wbit((((b >> (z as {{BB}})) >> 1) as {{BB}}) as nat, j) == (j + z + 1 < {{M}} && wbit(b as nat, j + z + 1)),
-{
-    let b2: {{BB}} = (b >> (z as {{BB}})) >> 1;
-    lemma_wbit_bb(b2, j);
-    let zz = z as {{BB}};
-    let jj = j as {{BB}};
-    if j + z + 1 < {{M}} {
-        let k = j + z + 1;
-        lemma_wbit_bb(b, k);
-        let kk = k as {{BB}};
-        assert((((b >> zz) >> 1) >> jj) & 1 == (b >> kk) & 1) by (bit_vector) requires kk == jj + zz + 1, kk < {{M}};
-    } else {
-        assert((((b >> zz) >> 1) >> jj) & 1 == 0) by (bit_vector) requires jj + zz + 1 >= {{M}}, jj < {{M}}, zz < {{M}};
-    }
-}
-
-/// bits of b >> z
-pub proof fn lemma_shr_bits(b: {{BB}}, z: nat, j: nat)
-    requires z < {{M}}, j < {{M}},
-    ensures wbit(((b >> (z as {{BB}})) as {{BB}}) as nat, j) == (j + z < {{M}} && wbit(b as nat, j + z)),
-{
-    let b2: {{BB}} = b >> (z as {{BB}});
-    lemma_wbit_bb(b2, j);
-    let zz = z as {{BB}};
-    let jj = j as {{BB}};
-    if j + z < {{M}} {
-        let k = j + z;
-        lemma_wbit_bb(b, k);
-        let kk = k as {{BB}};
-        assert(((b >> zz) >> jj) & 1 == (b >> kk) & 1) by (bit_vector) requires kk == jj + zz, kk < {{M}};
-    } else {
-        assert(((b >> zz) >> jj) & 1 == 0) by (bit_vector) requires jj + zz >= {{M}}, jj < {{M}}, zz < {{M}};
-    }
-}
-
-/// bits of an upcast word
-pub proof fn lemma_upcast_bits(w: {{W}}, j: nat)
-    requires j < {{M}},
-    ensures wbit((w as {{BB}}) as nat, j) == (j < {{N}} && wbit(w as nat, j)),
-{
-    lemma_wbit_bb(w as {{BB}}, j);
-    let jj = j as {{BB}};
-    if j < {{N}} {
-        lemma_wbit_w(w, j);
-        let j3 = j as {{W}};
-        assert(((w as {{BB}}) >> jj) & 1 == ((w >> j3) & 1) as {{BB}}) by (bit_vector) requires jj == j3 as {{BB}}, j3 < {{N}};
-    } else {
-        assert(((w as {{BB}}) >> jj) & 1 == 0) by (bit_vector) requires jj >= {{N}}, jj < {{M}};
-    }
-}
-
-pub proof fn lemma_zero_bits(j: nat)
-    ensures !wbit(0, j),
-{
-    lemma_pow2_pos(j);
-    assert(0nat / pow2(j) == 0) by (nonlinear_arith) requires pow2(j) > 0;
-}
-
-/// a stream bit inside word c: position c*N + t with 0 <= t < N
-pub proof fn lemma_sbit_word<WR: WordRead>(le: bool, b: &WR, c: nat, t: int)
-    requires 0 <= t < {{N}},
-    ensures sbit(le, b, c * {{N}} + t) == (if le { wbit(spec_to_le(b.word_at(c)) as nat, t as nat) } else { wbit(spec_to_be(b.word_at(c)) as nat, ({{N}} - 1 - t) as nat) }),
-{
-    lemma_fundamental_div_mod_converse(c * {{N}} + t, {{N}}, c as int, t);
-}
+//@INCLUDE reader_defs.inc
 
 // ---------------------------------------------------------------- BE
 impl<WR: WordRead> BufBitReader<BE, WR> {
@@ -292,42 +34,42 @@ impl<WR: WordRead> BufBitReader<BE, WR> {
         &&& self.pos() >= 0
         &&& self.backend.limit() * {{N}} + {{M}} <= u64::MAX
         &&& self.backend.cursor() <= self.backend.limit()
-        &&& forall|j: nat| j < {{M}} ==> #[trigger] wbit(self.buffer as nat, j) == (j >= {{M}} - self.bits_in_buffer && sbit(false, &self.backend, self.pos() + {{M}} - 1 - j))
+        &&& forall|j: nat| j < {{M}} ==> #[trigger] wbit(self.buffer as nat, j) == (j >= {{M}} - self.bits_in_buffer && sbit(false, self.backend.data(), self.pos() + {{M}} - 1 - j))
     }
 
 //@FN file=src/impls/buf_bit_reader.rs item=/impl<WR: WordRead, RP: ReadParams> BitRead<BE> for BufBitReader<BE, WR, RP>/ name=read_unary
 //@SIG fn read_unary_be(&mut self) -> (r: Result<u64, WR::Error>)
 //@SPEC     requires old(self).inv(),
 //@SPEC     ensures
-//@SPEC         forall|i: nat| final(self).backend.word_at(i) == old(self).backend.word_at(i),
+//@SPEC         final(self).backend.data() == old(self).backend.data(),
 //@SPEC         r is Ok ==> {
 //@SPEC             &&& final(self).inv()
 //@SPEC             &&& final(self).pos() == old(self).pos() + r->Ok_0 + 1
-//@SPEC             &&& forall|t: int| 0 <= t < r->Ok_0 ==> !#[trigger] rbit(false, &old(self).backend, old(self).pos(), t)
-//@SPEC             &&& rbit(false, &old(self).backend, old(self).pos(), r->Ok_0 as int)
+//@SPEC             &&& forall|t: int| 0 <= t < r->Ok_0 ==> !#[trigger] rbit(false, old(self).backend.data(), old(self).pos(), t)
+//@SPEC             &&& rbit(false, old(self).backend.data(), old(self).pos(), r->Ok_0 as int)
 //@SPEC         },
 //@SPEC         // C09: an error only if no one-bit remains before the end of the data
-//@SPEC         r is Err ==> forall|t: int| 0 <= t && old(self).pos() + t < old(self).backend.len() * {{N}} ==> !#[trigger] rbit(false, &old(self).backend, old(self).pos(), t),
+//@SPEC         r is Err ==> forall|t: int| 0 <= t && old(self).pos() + t < old(self).backend.len() * {{N}} ==> !#[trigger] rbit(false, old(self).backend.data(), old(self).pos(), t),
 //@INST <<UpcastableInto::<BB<WR>>::upcast(new_word)>> => <<(new_word as {{BB}})>>
 //@INST <<BB::<WR>::BITS>> => <<{{M}}usize>>
 //@INST <<WR::Word::BITS>> => <<{{N}}usize>>
 //@INST <<WR::Word::ZERO>> => <<(0 as {{W}})>>
 //@PROLOGUE let ghost pos0 = self.pos(); let ghost nb0 = self.bits_in_buffer as int; let ghost b0 = self.buffer;
 //@PROLOGUE proof { lemma_lz_bb(b0); }
-//@PROOF after=<<self.bits_in_buffer -= zeros + 1;>> proof { assert forall|j: nat| j < {{M}} implies #[trigger] wbit(self.buffer as nat, j) == (j >= {{M}} - self.bits_in_buffer && sbit(false, &self.backend, self.pos() + {{M}} - 1 - j)) by { lemma_shl1_bits(b0, zeros as nat, j); } assert forall|t: int| 0 <= t < zeros implies !#[trigger] rbit(false, &old(self).backend, pos0, t) by { assert(!wbit(b0 as nat, ({{M}} - 1 - t) as nat)); } assert(wbit(b0 as nat, ({{M}} - 1 - zeros) as nat)); }
-//@PROOF after=<<let mut result: u64 = self.bits_in_buffer as _;>> proof { assert forall|t: int| 0 <= t < nb0 implies !#[trigger] rbit(false, &old(self).backend, pos0, t) by { assert(!wbit(b0 as nat, ({{M}} - 1 - t) as nat)); } }
+//@PROOF after=<<self.bits_in_buffer -= zeros + 1;>> proof { assert forall|j: nat| j < {{M}} implies #[trigger] wbit(self.buffer as nat, j) == (j >= {{M}} - self.bits_in_buffer && sbit(false, self.backend.data(), self.pos() + {{M}} - 1 - j)) by { lemma_shl1_bits(b0, zeros as nat, j); } assert forall|t: int| 0 <= t < zeros implies !#[trigger] rbit(false, old(self).backend.data(), pos0, t) by { assert(!wbit(b0 as nat, ({{M}} - 1 - t) as nat)); } assert(wbit(b0 as nat, ({{M}} - 1 - zeros) as nat)); }
+//@PROOF after=<<let mut result: u64 = self.bits_in_buffer as _;>> proof { assert forall|t: int| 0 <= t < nb0 implies !#[trigger] rbit(false, old(self).backend.data(), pos0, t) by { assert(!wbit(b0 as nat, ({{M}} - 1 - t) as nat)); } }
 //@LOOP 1 invariant
-//@LOOP 1     forall|i: nat| self.backend.word_at(i) == old(self).backend.word_at(i),
+//@LOOP 1     self.backend.data() == old(self).backend.data(),
 //@LOOP 1     self.backend.limit() == old(self).backend.limit(), self.backend.len() == old(self).backend.len(),
 //@LOOP 1     self.backend.limit() * {{N}} + {{M}} <= u64::MAX,
 //@LOOP 1     self.backend.cursor() <= self.backend.limit(),
 //@LOOP 1     pos0 >= 0, pos0 == old(self).pos(),
 //@LOOP 1     result == self.backend.cursor() * {{N}} - pos0,
-//@LOOP 1     forall|t: int| 0 <= t < result ==> !#[trigger] rbit(false, &old(self).backend, pos0, t),
+//@LOOP 1     forall|t: int| 0 <= t < result ==> !#[trigger] rbit(false, old(self).backend.data(), pos0, t),
 //@LOOP 1 decreases self.backend.limit() - self.backend.cursor(),
 //@PROOF after=<<let new_word = self.backend.read_word()?.to_be();>> proof { lemma_lz_w(new_word); }
-//@PROOF after=<<self.bits_in_buffer = {{N}}usize - zeros - 1;>> proof { assert forall|j: nat| j < {{M}} implies #[trigger] wbit(self.buffer as nat, j) == (j >= {{M}} - self.bits_in_buffer && sbit(false, &self.backend, self.pos() + {{M}} - 1 - j)) by { lemma_shl1_bits(new_word as {{BB}}, ({{N}} + zeros) as nat, j); if j >= {{N}} + 1 + zeros { lemma_upcast_bits(new_word, (j - {{N}} - 1 - zeros) as nat); lemma_sbit_word(false, &self.backend, (self.backend.cursor() - 1) as nat, zeros + {{M}} - j); } } assert forall|t: int| 0 <= t < result + zeros implies !#[trigger] rbit(false, &old(self).backend, pos0, t) by { if t >= result { lemma_sbit_word(false, &old(self).backend, (self.backend.cursor() - 1) as nat, t - result); assert(!wbit(new_word as nat, ({{N}} - 1 - (t - result)) as nat)); } } assert(wbit(new_word as nat, ({{N}} - 1 - zeros) as nat)); lemma_sbit_word(false, &old(self).backend, (self.backend.cursor() - 1) as nat, zeros as int); assert(rbit(false, &old(self).backend, pos0, result + zeros)); }
-//@REPLACE <<result += {{N}}usize as u64;>> => <<proof { assert forall|t: int| 0 <= t < result + {{N}} implies !#[trigger] rbit(false, &old(self).backend, pos0, t) by { if t >= result { lemma_sbit_word(false, &old(self).backend, (self.backend.cursor() - 1) as nat, t - result); lemma_zero_bits(({{N}} - 1 - (t - result)) as nat); } } } result += {{N}}usize as u64;>>
+//@PROOF after=<<self.bits_in_buffer = {{N}}usize - zeros - 1;>> proof { assert forall|j: nat| j < {{M}} implies #[trigger] wbit(self.buffer as nat, j) == (j >= {{M}} - self.bits_in_buffer && sbit(false, self.backend.data(), self.pos() + {{M}} - 1 - j)) by { lemma_shl1_bits(new_word as {{BB}}, ({{N}} + zeros) as nat, j); if j >= {{N}} + 1 + zeros { lemma_upcast_bits(new_word, (j - {{N}} - 1 - zeros) as nat); lemma_sbit_word(false, self.backend.data(), (self.backend.cursor() - 1) as nat, zeros + {{M}} - j); } } assert forall|t: int| 0 <= t < result + zeros implies !#[trigger] rbit(false, old(self).backend.data(), pos0, t) by { if t >= result { lemma_sbit_word(false, old(self).backend.data(), (self.backend.cursor() - 1) as nat, t - result); assert(!wbit(new_word as nat, ({{N}} - 1 - (t - result)) as nat)); } } assert(wbit(new_word as nat, ({{N}} - 1 - zeros) as nat)); lemma_sbit_word(false, old(self).backend.data(), (self.backend.cursor() - 1) as nat, zeros as int); assert(rbit(false, old(self).backend.data(), pos0, result + zeros)); }
+//@REPLACE <<result += {{N}}usize as u64;>> => <<proof { assert forall|t: int| 0 <= t < result + {{N}} implies !#[trigger] rbit(false, old(self).backend.data(), pos0, t) by { if t >= result { lemma_sbit_word(false, old(self).backend.data(), (self.backend.cursor() - 1) as nat, t - result); lemma_zero_bits(({{N}} - 1 - (t - result)) as nat); } } } result += {{N}}usize as u64;>>
 //@END
 
 //@FN file=src/impls/buf_bit_reader.rs item=/impl<WR: WordRead, RP: ReadParams> BitRead<BE> for BufBitReader<BE, WR, RP>/ name=skip_bits
@@ -335,7 +77,7 @@ impl<WR: WordRead> BufBitReader<BE, WR> {
 //@SIG fn skip_bits_be(&mut self, mut n_bits: usize) -> (r: Result<(), WR::Error>)
 //@SPEC     requires old(self).inv(),
 //@SPEC     ensures
-//@SPEC         forall|i: nat| final(self).backend.word_at(i) == old(self).backend.word_at(i),
+//@SPEC         final(self).backend.data() == old(self).backend.data(),
 //@SPEC         r is Ok ==> final(self).inv() && final(self).pos() == old(self).pos() + n_bits,
 //@SPEC         // C09: an error only if the skip needs a word beyond the end of the data
 //@SPEC         r is Err ==> old(self).pos() + n_bits > old(self).backend.len() * {{N}},
@@ -343,16 +85,16 @@ impl<WR: WordRead> BufBitReader<BE, WR> {
 //@INST <<BB::<WR>::BITS>> => <<{{M}}usize>>
 //@INST <<WR::Word::BITS>> => <<{{N}}usize>>
 //@PROLOGUE let ghost pos0 = self.pos(); let ghost nb0 = self.bits_in_buffer as int; let ghost b0 = self.buffer; let ghost n0 = n_bits as int;
-//@PROOF after=<<self.buffer <<= n_bits;>> proof { assert forall|j: nat| j < {{M}} implies #[trigger] wbit(self.buffer as nat, j) == (j >= {{M}} - self.bits_in_buffer && sbit(false, &self.backend, self.pos() + {{M}} - 1 - j)) by { lemma_shl_bits(b0, n_bits as nat, j); } }
+//@PROOF after=<<self.buffer <<= n_bits;>> proof { assert forall|j: nat| j < {{M}} implies #[trigger] wbit(self.buffer as nat, j) == (j >= {{M}} - self.bits_in_buffer && sbit(false, self.backend.data(), self.pos() + {{M}} - 1 - j)) by { lemma_shl_bits(b0, n_bits as nat, j); } }
 //@LOOP 1 invariant
-//@LOOP 1     forall|i: nat| self.backend.word_at(i) == old(self).backend.word_at(i),
+//@LOOP 1     self.backend.data() == old(self).backend.data(),
 //@LOOP 1     self.backend.limit() == old(self).backend.limit(), self.backend.len() == old(self).backend.len(),
 //@LOOP 1     self.backend.limit() * {{N}} + {{M}} <= u64::MAX,
 //@LOOP 1     self.backend.cursor() <= self.backend.limit(),
 //@LOOP 1     pos0 >= 0, pos0 == old(self).pos(), n_bits >= 1,
 //@LOOP 1     self.backend.cursor() * {{N}} + n_bits == pos0 + n0,
 //@LOOP 1 decreases n_bits,
-//@EPILOGUE proof { assert forall|j: nat| j < {{M}} implies #[trigger] wbit(self.buffer as nat, j) == (j >= {{M}} - self.bits_in_buffer && sbit(false, &self.backend, self.pos() + {{M}} - 1 - j)) by { lemma_shl1_bits(new_word as {{BB}}, ({{M}} - 1 - self.bits_in_buffer) as nat, j); if j >= {{M}} - self.bits_in_buffer { lemma_upcast_bits(new_word, (j - ({{M}} - self.bits_in_buffer)) as nat); lemma_sbit_word(false, &self.backend, (self.backend.cursor() - 1) as nat, n_bits + {{M}} - 1 - j); } } }
+//@EPILOGUE proof { assert forall|j: nat| j < {{M}} implies #[trigger] wbit(self.buffer as nat, j) == (j >= {{M}} - self.bits_in_buffer && sbit(false, self.backend.data(), self.pos() + {{M}} - 1 - j)) by { lemma_shl1_bits(new_word as {{BB}}, ({{M}} - 1 - self.bits_in_buffer) as nat, j); if j >= {{M}} - self.bits_in_buffer { lemma_upcast_bits(new_word, (j - ({{M}} - self.bits_in_buffer)) as nat); lemma_sbit_word(false, self.backend.data(), (self.backend.cursor() - 1) as nat, n_bits + {{M}} - 1 - j); } } }
 //@END
 }
 
@@ -365,42 +107,42 @@ impl<WR: WordRead> BufBitReader<LE, WR> {
         &&& self.pos() >= 0
         &&& self.backend.limit() * {{N}} + {{M}} <= u64::MAX
         &&& self.backend.cursor() <= self.backend.limit()
-        &&& forall|j: nat| j < {{M}} ==> #[trigger] wbit(self.buffer as nat, j) == (j < self.bits_in_buffer && sbit(true, &self.backend, self.pos() + j))
+        &&& forall|j: nat| j < {{M}} ==> #[trigger] wbit(self.buffer as nat, j) == (j < self.bits_in_buffer && sbit(true, self.backend.data(), self.pos() + j))
     }
 
 //@FN file=src/impls/buf_bit_reader.rs item=/impl<WR: WordRead, RP: ReadParams> BitRead<LE> for BufBitReader<LE, WR, RP>/ name=read_unary
 //@SIG fn read_unary_le(&mut self) -> (r: Result<u64, WR::Error>)
 //@SPEC     requires old(self).inv(),
 //@SPEC     ensures
-//@SPEC         forall|i: nat| final(self).backend.word_at(i) == old(self).backend.word_at(i),
+//@SPEC         final(self).backend.data() == old(self).backend.data(),
 //@SPEC         r is Ok ==> {
 //@SPEC             &&& final(self).inv()
 //@SPEC             &&& final(self).pos() == old(self).pos() + r->Ok_0 + 1
-//@SPEC             &&& forall|t: int| 0 <= t < r->Ok_0 ==> !#[trigger] rbit(true, &old(self).backend, old(self).pos(), t)
-//@SPEC             &&& rbit(true, &old(self).backend, old(self).pos(), r->Ok_0 as int)
+//@SPEC             &&& forall|t: int| 0 <= t < r->Ok_0 ==> !#[trigger] rbit(true, old(self).backend.data(), old(self).pos(), t)
+//@SPEC             &&& rbit(true, old(self).backend.data(), old(self).pos(), r->Ok_0 as int)
 //@SPEC         },
 //@SPEC         // C09: an error only if no one-bit remains before the end of the data
-//@SPEC         r is Err ==> forall|t: int| 0 <= t && old(self).pos() + t < old(self).backend.len() * {{N}} ==> !#[trigger] rbit(true, &old(self).backend, old(self).pos(), t),
+//@SPEC         r is Err ==> forall|t: int| 0 <= t && old(self).pos() + t < old(self).backend.len() * {{N}} ==> !#[trigger] rbit(true, old(self).backend.data(), old(self).pos(), t),
 //@INST <<UpcastableInto::<BB<WR>>::upcast(new_word)>> => <<(new_word as {{BB}})>>
 //@INST <<BB::<WR>::BITS>> => <<{{M}}usize>>
 //@INST <<WR::Word::BITS>> => <<{{N}}usize>>
 //@INST <<WR::Word::ZERO>> => <<(0 as {{W}})>>
 //@PROLOGUE let ghost pos0 = self.pos(); let ghost nb0 = self.bits_in_buffer as int; let ghost b0 = self.buffer;
 //@PROLOGUE proof { lemma_tz_bb(b0); }
-//@PROOF after=<<self.bits_in_buffer -= zeros + 1;>> proof { assert forall|j: nat| j < {{M}} implies #[trigger] wbit(self.buffer as nat, j) == (j < self.bits_in_buffer && sbit(true, &self.backend, self.pos() + j)) by { lemma_shr1_bits(b0, zeros as nat, j); } assert forall|t: int| 0 <= t < zeros implies !#[trigger] rbit(true, &old(self).backend, pos0, t) by { assert(!wbit(b0 as nat, t as nat)); } assert(wbit(b0 as nat, zeros as nat)); }
-//@PROOF after=<<let mut result: u64 = self.bits_in_buffer as _;>> proof { assert forall|t: int| 0 <= t < nb0 implies !#[trigger] rbit(true, &old(self).backend, pos0, t) by { assert(!wbit(b0 as nat, t as nat)); } }
+//@PROOF after=<<self.bits_in_buffer -= zeros + 1;>> proof { assert forall|j: nat| j < {{M}} implies #[trigger] wbit(self.buffer as nat, j) == (j < self.bits_in_buffer && sbit(true, self.backend.data(), self.pos() + j)) by { lemma_shr1_bits(b0, zeros as nat, j); } assert forall|t: int| 0 <= t < zeros implies !#[trigger] rbit(true, old(self).backend.data(), pos0, t) by { assert(!wbit(b0 as nat, t as nat)); } assert(wbit(b0 as nat, zeros as nat)); }
+//@PROOF after=<<let mut result: u64 = self.bits_in_buffer as _;>> proof { assert forall|t: int| 0 <= t < nb0 implies !#[trigger] rbit(true, old(self).backend.data(), pos0, t) by { assert(!wbit(b0 as nat, t as nat)); } }
 //@LOOP 1 invariant
-//@LOOP 1     forall|i: nat| self.backend.word_at(i) == old(self).backend.word_at(i),
+//@LOOP 1     self.backend.data() == old(self).backend.data(),
 //@LOOP 1     self.backend.limit() == old(self).backend.limit(), self.backend.len() == old(self).backend.len(),
 //@LOOP 1     self.backend.limit() * {{N}} + {{M}} <= u64::MAX,
 //@LOOP 1     self.backend.cursor() <= self.backend.limit(),
 //@LOOP 1     pos0 >= 0, pos0 == old(self).pos(),
 //@LOOP 1     result == self.backend.cursor() * {{N}} - pos0,
-//@LOOP 1     forall|t: int| 0 <= t < result ==> !#[trigger] rbit(true, &old(self).backend, pos0, t),
+//@LOOP 1     forall|t: int| 0 <= t < result ==> !#[trigger] rbit(true, old(self).backend.data(), pos0, t),
 //@LOOP 1 decreases self.backend.limit() - self.backend.cursor(),
 //@PROOF after=<<let new_word = self.backend.read_word()?.to_le();>> proof { lemma_tz_w(new_word); }
-//@PROOF after=<<self.bits_in_buffer = {{N}}usize - zeros - 1;>> proof { assert forall|j: nat| j < {{M}} implies #[trigger] wbit(self.buffer as nat, j) == (j < self.bits_in_buffer && sbit(true, &self.backend, self.pos() + j)) by { lemma_shr1_bits(new_word as {{BB}}, zeros as nat, j); if j + zeros + 1 < {{M}} { lemma_upcast_bits(new_word, (j + zeros + 1) as nat); if j + zeros + 1 < {{N}} { lemma_sbit_word(true, &self.backend, (self.backend.cursor() - 1) as nat, j + zeros + 1); } } } assert forall|t: int| 0 <= t < result + zeros implies !#[trigger] rbit(true, &old(self).backend, pos0, t) by { if t >= result { lemma_sbit_word(true, &old(self).backend, (self.backend.cursor() - 1) as nat, t - result); assert(!wbit(new_word as nat, (t - result) as nat)); } } assert(wbit(new_word as nat, zeros as nat)); lemma_sbit_word(true, &old(self).backend, (self.backend.cursor() - 1) as nat, zeros as int); assert(rbit(true, &old(self).backend, pos0, result + zeros)); }
-//@REPLACE <<result += {{N}}usize as u64;>> => <<proof { assert forall|t: int| 0 <= t < result + {{N}} implies !#[trigger] rbit(true, &old(self).backend, pos0, t) by { if t >= result { lemma_sbit_word(true, &old(self).backend, (self.backend.cursor() - 1) as nat, t - result); lemma_zero_bits((t - result) as nat); } } } result += {{N}}usize as u64;>>
+//@PROOF after=<<self.bits_in_buffer = {{N}}usize - zeros - 1;>> proof { assert forall|j: nat| j < {{M}} implies #[trigger] wbit(self.buffer as nat, j) == (j < self.bits_in_buffer && sbit(true, self.backend.data(), self.pos() + j)) by { lemma_shr1_bits(new_word as {{BB}}, zeros as nat, j); if j + zeros + 1 < {{M}} { lemma_upcast_bits(new_word, (j + zeros + 1) as nat); if j + zeros + 1 < {{N}} { lemma_sbit_word(true, self.backend.data(), (self.backend.cursor() - 1) as nat, j + zeros + 1); } } } assert forall|t: int| 0 <= t < result + zeros implies !#[trigger] rbit(true, old(self).backend.data(), pos0, t) by { if t >= result { lemma_sbit_word(true, old(self).backend.data(), (self.backend.cursor() - 1) as nat, t - result); assert(!wbit(new_word as nat, (t - result) as nat)); } } assert(wbit(new_word as nat, zeros as nat)); lemma_sbit_word(true, old(self).backend.data(), (self.backend.cursor() - 1) as nat, zeros as int); assert(rbit(true, old(self).backend.data(), pos0, result + zeros)); }
+//@REPLACE <<result += {{N}}usize as u64;>> => <<proof { assert forall|t: int| 0 <= t < result + {{N}} implies !#[trigger] rbit(true, old(self).backend.data(), pos0, t) by { if t >= result { lemma_sbit_word(true, old(self).backend.data(), (self.backend.cursor() - 1) as nat, t - result); lemma_zero_bits((t - result) as nat); } } } result += {{N}}usize as u64;>>
 //@END
 
 //@FN file=src/impls/buf_bit_reader.rs item=/impl<WR: WordRead, RP: ReadParams> BitRead<LE> for BufBitReader<LE, WR, RP>/ name=skip_bits
@@ -408,7 +150,7 @@ impl<WR: WordRead> BufBitReader<LE, WR> {
 //@SIG fn skip_bits_le(&mut self, mut n_bits: usize) -> (r: Result<(), WR::Error>)
 //@SPEC     requires old(self).inv(),
 //@SPEC     ensures
-//@SPEC         forall|i: nat| final(self).backend.word_at(i) == old(self).backend.word_at(i),
+//@SPEC         final(self).backend.data() == old(self).backend.data(),
 //@SPEC         r is Ok ==> final(self).inv() && final(self).pos() == old(self).pos() + n_bits,
 //@SPEC         // C09: an error only if the skip needs a word beyond the end of the data
 //@SPEC         r is Err ==> old(self).pos() + n_bits > old(self).backend.len() * {{N}},
@@ -416,16 +158,16 @@ impl<WR: WordRead> BufBitReader<LE, WR> {
 //@INST <<BB::<WR>::BITS>> => <<{{M}}usize>>
 //@INST <<WR::Word::BITS>> => <<{{N}}usize>>
 //@PROLOGUE let ghost pos0 = self.pos(); let ghost nb0 = self.bits_in_buffer as int; let ghost b0 = self.buffer; let ghost n0 = n_bits as int;
-//@PROOF after=[[self.buffer >>= n_bits;]] proof { assert forall|j: nat| j < {{M}} implies #[trigger] wbit(self.buffer as nat, j) == (j < self.bits_in_buffer && sbit(true, &self.backend, self.pos() + j)) by { lemma_shr_bits(b0, n_bits as nat, j); } }
+//@PROOF after=[[self.buffer >>= n_bits;]] proof { assert forall|j: nat| j < {{M}} implies #[trigger] wbit(self.buffer as nat, j) == (j < self.bits_in_buffer && sbit(true, self.backend.data(), self.pos() + j)) by { lemma_shr_bits(b0, n_bits as nat, j); } }
 //@LOOP 1 invariant
-//@LOOP 1     forall|i: nat| self.backend.word_at(i) == old(self).backend.word_at(i),
+//@LOOP 1     self.backend.data() == old(self).backend.data(),
 //@LOOP 1     self.backend.limit() == old(self).backend.limit(), self.backend.len() == old(self).backend.len(),
 //@LOOP 1     self.backend.limit() * {{N}} + {{M}} <= u64::MAX,
 //@LOOP 1     self.backend.cursor() <= self.backend.limit(),
 //@LOOP 1     pos0 >= 0, pos0 == old(self).pos(), n_bits >= 1,
 //@LOOP 1     self.backend.cursor() * {{N}} + n_bits == pos0 + n0,
 //@LOOP 1 decreases n_bits,
-//@EPILOGUE proof { assert forall|j: nat| j < {{M}} implies #[trigger] wbit(self.buffer as nat, j) == (j < self.bits_in_buffer && sbit(true, &self.backend, self.pos() + j)) by { lemma_shr_bits(new_word as {{BB}}, n_bits as nat, j); if j + n_bits < {{M}} { lemma_upcast_bits(new_word, (j + n_bits) as nat); if j + n_bits < {{N}} { lemma_sbit_word(true, &self.backend, (self.backend.cursor() - 1) as nat, j + n_bits); } } } }
+//@EPILOGUE proof { assert forall|j: nat| j < {{M}} implies #[trigger] wbit(self.buffer as nat, j) == (j < self.bits_in_buffer && sbit(true, self.backend.data(), self.pos() + j)) by { lemma_shr_bits(new_word as {{BB}}, n_bits as nat, j); if j + n_bits < {{M}} { lemma_upcast_bits(new_word, (j + n_bits) as nat); if j + n_bits < {{N}} { lemma_sbit_word(true, self.backend.data(), (self.backend.cursor() - 1) as nat, j + n_bits); } } } }
 //@END
 }
 
